@@ -141,6 +141,17 @@ let handle kind a =
        | DErr -> Some "Err"
        | DPanic -> Some "Panic"
        | DUnsupported -> Some "unsupported")
+  | "fqe" ->
+      let lens = if a.(0) = "_" then [] else List.map (fun x -> nat_of_int (int_of_string x)) (String.split_on_char ',' a.(0)) in
+      (match fqz_encode lens (bytes_of_hex a.(1)) with
+       | Some bs -> Some (long_obs bs)
+       | None -> Some "Panic")
+  | "fqd" ->
+      (match fqz_decode (bytes_of_hex a.(0)) with
+       | FOk bs -> Some (long_obs bs)
+       | FErr -> Some "Err"
+       | FPanic -> Some "Panic"
+       | FUnsupported -> Some "unsupported")
   | _ -> None
 
 let () = run_driver handle
